@@ -946,7 +946,7 @@ class Interp:
                 raise PyExc(IndexError, e.args)
             except TypeError as e:
                 raise PyExc(TypeError, e.args)
-        if isinstance(o, (SymDict, Inst)):
+        if isinstance(o, (SymDict, Inst)) or (getattr(o, '_vf_container', False) and hasattr(type(o), '__getitem__')):
             return o[k]
         if hasattr(o, '_vf_getitem'):
             return o._vf_getitem(self, k)
@@ -1450,7 +1450,7 @@ class Interp:
     def contains(self, container, x):
         if isinstance(container, (list, tuple)):
             return any(py_eq(x, y) for y in container)
-        if isinstance(container, (SymDict, SymSet, Inst)):
+        if isinstance(container, (SymDict, SymSet, Inst)) or getattr(container, '_vf_container', False):
             return x in container
         if hasattr(container, '_vf_contains'):
             return container._vf_contains(self, x)
